@@ -35,12 +35,14 @@ def refuses (t : Table) : Req → Bool
 
 /-- a daemon or transport failure of a request that decides the outcome.
 `pin/ls` of the CID itself: only a reply that is no answer at all counts (an
-IPFS error object is how the daemon says "not pinned"); `pin/ls` of the update
+IPFS error object is how the daemon says "not pinned"), or a 200 reply that does
+not list a pin the daemon holds (cut off, empty, garbage); `pin/ls` of the update
 source and `swarm/connect` are advisory; the not-pinned reply to `pin/rm` is the
 case the property names as success. -/
 def failure (i : Input) (k : Nat) (r : Req) (c : Cls) : Bool :=
   match r with
-  | .ls x tr => k == 0 && (c == .hardFail || c == .stall || (c == .lostReply && i.table x == (if tr then .r else .d)))
+  | .ls x tr => k == 0 && (c == .hardFail || c == .stall ||
+      ((c == .lostReply || c == .badBody) && i.table x == (if tr then .r else .d)))
   | .add .. | .upd .. =>
     c == .ipfsErr || c == .notPinned || c == .hardFail || c == .lostReply || c == .stall ||
       c == .noProgress || c == .streamErr || ((c == .honest || c == .slowOk) && refuses i.table r)
